@@ -66,6 +66,33 @@ let rec scheme_of (f : string array) =
     let salt = int_of_string f.(4) in
     ((fun iv p ad -> xaes_enc aes (o_seal "gcm") (nat_of_int salt) prefix key iv p ad),
      (fun c ad -> xaes_dec aes (o_open "gcm") (nat_of_int salt) prefix key c ad), salt + 12)
+  | "pad" ->
+    (* harness-side key-encryption AEAD with ciphertexts of a chosen size (harness/p/c01/aead.go padAEAD):
+       be16(|ic|) || ic || zeros up to exactly n bytes around the inner AEAD's ciphertext ic; Decrypt accepts
+       exactly such strings.  It plays the abstract kek_enc / kek_dec of the envelope theorems. *)
+    (match String.split_on_char '~' f.(4) with
+     | ns :: is :: ir :: ip ->
+       let n = int_of_string ns in
+       let (ienc, idec, iivlen) = scheme_of [| is; ir; f.(2); f.(3); String.concat "~" ip; f.(5) |] in
+       let zeros k = List.init k (fun _ -> N0) in
+       ((fun iv p ad ->
+           match ienc iv p ad with
+           | Ok ic ->
+             let l = List.length ic in
+             if 2 + l > n || l > 65535 then Err
+             else Ok (byte_tab.(l lsr 8) :: byte_tab.(l land 255) :: ic @ zeros (n - 2 - l))
+           | e -> e),
+        (fun c ad ->
+           if List.length c <> n || n < 2 then Err else
+           match c with
+           | h :: lo :: rest ->
+             let l = 256 * int_of_n h + int_of_n lo in
+             if 2 + l > n then Err
+             else if List.exists (fun b -> b <> N0) (drop l rest) then Err
+             else idec (take l rest) ad
+           | _ -> Err),
+        iivlen)
+     | _ -> failwith "pad params")
   | "env" ->
     (match String.split_on_char '~' f.(4) with
      | dek :: ks :: kr :: kp ->
